@@ -106,7 +106,9 @@ def gen_cases(rng, tier):
                     recur = [b for b in BW_RECUR if 0.02 * fs <= b <= 0.45 * fs]
                     cases.append({
                         "kind": "run", "n": rng.choice(LENS), "npol": npol, "noise": noise,
-                        "field": rng.choice(["random", "random", "cw"]), "amp": rng.choice([1.0, 0.03, 1e-3]),
+                        # "darkpol": a two-polarisation field whose y polarisation carries NO signal but (when noise is on) does carry noise
+                        "field": rng.choice(["random", "random", "cw", "darkpol"] if npol == 2 else ["random", "random", "cw"]),
+                        "amp": rng.choice([1.0, 0.03, 1e-3]),
                         "seed": rng.getrandbits(32), "np_seed": rng.getrandbits(31), "np_seed2": rng.getrandbits(31),
                         "sps": sps, "R": R, "BW": rng.choice(recur) if recur and rng.random() < 0.5 else rng.uniform(0.02, 0.45) * fs,
                         "r": rng.choice([_py("float", 1.0), _py("int", 1), _py("float", 0.5), _py("float", rng.uniform(0.01, 1.0)),
@@ -210,6 +212,8 @@ def _field(case):
             s = case["amp"] * np.array([np.cos(th), np.sin(th)])[:, None] * np.exp(1j * ph)
     else:
         s = case["amp"] * (g.normal(size=shape) + 1j * g.normal(size=shape))
+        if case["field"] == "darkpol" and npol == 2:
+            s[1] = 0.0
     nz = 0.2 * case["amp"] * (g.normal(size=shape) + 1j * g.normal(size=shape)) if case["noise"] else None
     return s, nz
 
@@ -350,12 +354,28 @@ def _pack(call, full=True):
     return d
 
 
+def _exceeds(err, tol):
+    """tolerance test that a NaN / inf on either side FAILS (`err > tol` is silently False for NaN)"""
+    return not (err <= tol)
+
+
+def _mx(xs):
+    """max |x| over a sequence; NaN as soon as one element is not finite (Python's max() does not propagate NaN)"""
+    a = np.abs(np.asarray(list(xs) if not isinstance(xs, np.ndarray) else xs, dtype=float))
+    if a.size == 0:
+        return 0.0
+    return float("nan") if not np.all(np.isfinite(a)) else float(np.max(a))
+
+
 def _maxrel(a, b):
+    """max |a-b| / max |b|; inf for a shape mismatch, NaN when a value is not finite (callers test with _exceeds)"""
     a, b = np.asarray(a, dtype=float), np.asarray(b, dtype=float)
     if a.shape != b.shape:
         return float("inf")
-    scale = max(float(np.max(np.abs(b))) if b.size else 0.0, 1e-300)
-    return float(np.max(np.abs(a - b))) / scale if a.size else 0.0
+    if not a.size:
+        return 0.0
+    sb = _mx(b)
+    return _mx(a - b) / (sb if sb != 0 else 1e-300)       # NaN propagates
 
 
 def run_impl(case):
@@ -441,10 +461,9 @@ def run_impl(case):
 def _twin(c, main):
     if c["status"] != "ok":
         return {"status": c["status"], "detail": c.get("detail")}
-    noise_scale = max(float(np.max(np.abs(main["out_noise"]))), 1e-300)
     return {"status": "ok", "sig_err": _maxrel(c["out_sig"], main["out_sig"]),
-            "noise_err": float(np.max(np.abs(c["out_noise"] - main["out_noise"]))) / noise_scale,
-            "rng_scale_err": max([abs(q["scale"] - p["scale"]) / max(p["scale"], 1e-300) for q, p in zip(c["rng"], main["rng"])] or [0.0]),
+            "noise_err": _maxrel(c["out_noise"], main["out_noise"]),
+            "rng_scale_err": _mx([(q["scale"] - p["scale"]) / (p["scale"] if p["scale"] != 0 else 1e-300) for q, p in zip(c["rng"], main["rng"])]),
             "rng_calls": len(c["rng"]) == len(main["rng"])}
 
 
@@ -548,15 +567,15 @@ def compare(case, res, reqs, replies):
             return [f"model accepts, implementation {main['status']} {main.get('err')} {main.get('detail')}"]
         if main["lpf_calls"] != 1:
             return [f"PD called LPF {main['lpf_calls']} times"]
-        scale_s = max(max(abs(v) for v in main["pre_sig"]), 1e-300)
-        if len(msig) != len(main["pre_sig"]) or any(abs(a - b) > 1e-9 * scale_s for a, b in zip(msig, main["pre_sig"])):
+        scale_s = _mx(main["pre_sig"])
+        if len(msig) != len(main["pre_sig"]) or _exceeds(_mx(np.array(msig) - np.array(main["pre_sig"])), 1e-9 * scale_s):
             out.append("signal part handed to LPF differs between model and implementation")
         if main["pre_noise"] is None:
             out.append("implementation handed no noise part to LPF")
         else:
-            drawmax = max([abs(v) for q in main["rng"] for v in q["values"]] or [0.0]) * float(_obj(case["R_load"]))
-            scale_n = max(max(abs(v) for v in main["pre_noise"]), drawmax, 1e-300)
-            if len(mnoise) != len(main["pre_noise"]) or any(abs(a - b) > 1e-9 * scale_n for a, b in zip(mnoise, main["pre_noise"])):
+            drawmax = _mx([v for q in main["rng"] for v in q["values"]]) * float(_obj(case["R_load"]))
+            scale_n = max(_mx(main["pre_noise"]), drawmax) if drawmax == drawmax else float("nan")
+            if len(mnoise) != len(main["pre_noise"]) or _exceeds(_mx(np.array(mnoise) - np.array(main["pre_noise"])), 1e-9 * scale_n):
                 out.append("noise part handed to LPF differs between model and implementation")
     elif rep.startswith("err "):
         parts = rep.split()
@@ -574,7 +593,7 @@ def compare(case, res, reqs, replies):
         out.append(f"model expects {len(mreqs)} np.random.normal calls, implementation made {len(ireqs)}")
     else:
         for k, ((loc, scale, size), q) in enumerate(zip(mreqs, ireqs)):
-            if q["loc"] != loc or q["size"] != size or abs(q["scale"] - scale) > 1e-9 * max(abs(scale), 1e-300):
+            if q["loc"] != loc or q["size"] != size or _exceeds(abs(q["scale"] - scale), 1e-9 * abs(scale)):
                 out.append(f"np.random.normal call {k}: model (loc={loc}, scale={scale!r}, size={size}) vs implementation "
                            f"(loc={q['loc']}, scale={q['scale']!r}, size={q['size']})")
     if len(replies) > 1:
@@ -604,12 +623,12 @@ def _compare_full(case, main, rep):
         n = len(main["out_sig"])
         for name, m, i in (("signal", msig, main["out_sig"]), ("noise", mnoise, main["out_noise"])):
             pre = main["pre_sig"] if name == "signal" else main["pre_noise"]
-            scale = max(max(abs(v) for v in pre), 1e-300)
+            scale = _mx(pre)
             if i is None or len(m) != len(i):
                 out.append(f"end to end: {name} part has {len(m)} samples in the model, {None if i is None else len(i)} in the implementation")
             else:
-                worst = max(abs(a - b) for a, b in zip(m, i))
-                if worst > 1e-12 * scale * n:
+                worst = _mx(np.array(m) - np.array(i))
+                if _exceeds(worst, 1e-12 * scale * n):
                     out.append(f"end to end: FINAL {name} part of PD differs from Filter.lpf(pre-filter model) by {worst:.3e} (scale {scale:.3e}, N={n})")
     elif rep.startswith("err "):
         err = rep.split()[1]
@@ -728,7 +747,7 @@ def oracle(case, res):
         for (name, sd), q in zip(want, rng):
             if q["loc"] != 0:
                 v.append((f"C09:{name}-mean", f"{name} noise drawn with mean {q['loc']}"))
-            if abs(q["scale"] - sd) > 1e-9 * max(sd, 1e-300):
+            if _exceeds(abs(q["scale"] - sd), 1e-9 * sd):
                 v.append((f"C09:{name}-sigma", f"{name} noise drawn with sigma {q['scale']!r}, documented {sd!r} (A)"))
             if q["size"] != n:
                 v.append((f"C09:{name}-size", f"{name} noise drawn with size {q['size']}, input length {n}"))
@@ -741,10 +760,10 @@ def oracle(case, res):
     if not main.get("in_unchanged", True):
         v.append(("C09:input-modified", "PD modified its input"))
     # --- before the filter (spied): square law and the selected noise terms
-    if main["lpf_calls"] != 1 or abs(main["lpf_BW"] - case["BW"]) > 0 or main["lpf_extra"]:
+    if main["lpf_calls"] != 1 or main["lpf_BW"] != case["BW"] or main["lpf_extra"]:
         v.append(("C09:filter-call", f"output filter called {main['lpf_calls']} times / BW {main.get('lpf_BW')} / extra args {main.get('lpf_extra')}"))
         return v
-    if _maxrel(main["pre_sig"], ref["sig"]) > 1e-12 * 16:
+    if _exceeds(_maxrel(main["pre_sig"], ref["sig"]), 1e-12 * 16):
         v.append(("C09:square-law", f"signal before the filter differs from R_load*r*|E|^2 by {_maxrel(main['pre_sig'], ref['sig']):.3e} relative"))
     terms = np.zeros(n)
     mags = [case["i_dark"]]
@@ -759,29 +778,29 @@ def oracle(case, res):
             terms = terms + np.array(q["values"])
             mags.append(np.max(np.abs(q["values"])))
     noise_ref = ref["Rl"] * (terms + case["i_dark"])
-    nscale = max(ref["Rl"] * max(mags), 1e-300)
-    if main["pre_noise"] is None or len(main["pre_noise"]) != n or np.max(np.abs(np.array(main["pre_noise"]) - noise_ref)) > 1e-11 * nscale:
+    nscale = ref["Rl"] * _mx(mags)        # relative to the largest term of the sum (NaN if a recorded draw is not finite)
+    if main["pre_noise"] is None or len(main["pre_noise"]) != n or _exceeds(_mx(np.array(main["pre_noise"]) - noise_ref), 1e-11 * nscale):
         v.append((f"C09:noise-terms:{opt}", f"noise before the filter is not R_load*(selected terms + i_dark) for option {opt!r}"))
     # --- end to end: scipy's own filter on the reference
     fsig, _ = _filter(case, res, ref["sig"])
-    if _maxrel(main["out_sig"], fsig) > 1e-9:
+    if _exceeds(_maxrel(main["out_sig"], fsig), 1e-9):
         v.append(("C09:signal-out", f"output signal differs from LPF(R_load*r*|E|^2) by {_maxrel(main['out_sig'], fsig):.3e} relative"))
     fnoise, _ = _filter(case, res, noise_ref)
-    if np.max(np.abs(np.array(main["out_noise"]) - fnoise)) > 1e-9 * nscale:
+    if _exceeds(_mx(np.array(main["out_noise"]) - fnoise), 1e-9 * nscale):
         v.append(("C09:noise-out", "output noise differs from LPF(R_load*(selected terms + i_dark))"))
     # --- CW: constant voltage r*P*R_load (unit DC gain), judged on the whole record
     dctol = _dc_tol(case["BW"], res["fs"])
     if case["field"] == "cw":
         level = ref["r"] * case["amp"] ** 2 * ref["Rl"]
-        dev = float(np.max(np.abs(np.array(main["out_sig"]) - level))) / level
-        if dev > dctol:
+        dev = _mx(np.array(main["out_sig"]) - level) / level
+        if _exceeds(dev, dctol):
             v.append(("C09:cw-level", f"CW input of power {case['amp'] ** 2} W, BW/fs = {case['BW'] / res['fs']:.2e}: output deviates from "
                       f"r*P*R_load = {level} V by {dev:.3e} relative (tolerance {dctol:.1e})"))
     # --- no random term, no optical noise: the noise part is the dark-current offset i_dark*R_load at every sample
     if opt == "ase-only" and not case["noise"] and case["i_dark"] > 0:
         dark = ref["Rl"] * case["i_dark"]
-        dev = float(np.max(np.abs(np.array(main["out_noise"]) - dark))) / dark
-        if dev > dctol:
+        dev = _mx(np.array(main["out_noise"]) - dark) / dark
+        if _exceeds(dev, dctol):
             v.append(("C09:dark-level", f"BW/fs = {case['BW'] / res['fs']:.2e}: output noise deviates from the dark-current offset "
                       f"i_dark*R_load = {dark} V by {dev:.3e} relative (tolerance {dctol:.1e})"))
     # --- twins
@@ -794,12 +813,13 @@ def oracle(case, res):
                 t = tw[name]
                 if t["status"] != "ok":
                     v.append((f"C09:{name}-inv", f"{name}-transformed input: {t}"))
-                elif t["sig_err"] > 1e-9 or t["noise_err"] > 1e-9 + 2 * t["rng_scale_err"] or not t["rng_calls"] or t["rng_scale_err"] > 1e-9:
+                elif _exceeds(t["sig_err"], 1e-9) or _exceeds(t["noise_err"], 1e-9 + 2 * t["rng_scale_err"]) or not t["rng_calls"] \
+                        or _exceeds(t["rng_scale_err"], 1e-9):
                     v.append((f"C09:{name}-inv", f"output changed under a {name} transformation of the field: signal {t['sig_err']:.3e}, "
                               f"noise {t['noise_err']:.3e}, sigma {t['rng_scale_err']:.3e} (relative)"))
-        if tw["lin"]["status"] != "ok" or tw["lin"]["err"] > 1e-9:
+        if tw["lin"]["status"] != "ok" or _exceeds(tw["lin"]["err"], 1e-9):
             v.append(("C09:linear-r-R", f"signal part not proportional to r*R_load: {tw['lin']}"))
-        if tw["quad"]["status"] != "ok" or tw["quad"]["err"] > 1e-9:
+        if tw["quad"]["status"] != "ok" or _exceeds(tw["quad"]["err"], 1e-9):
             v.append(("C09:quadratic", f"signal part not proportional to |c|^2: {tw['quad']}"))
     return v
 
@@ -820,14 +840,14 @@ def _oracle_stat(case, res, ref, th_on, sh_on):
     want = var_in * neb
     # std of the sample variance of a filtered Gaussian sequence: var * sqrt(2/N * mean(g^2)/mean(g)^2)
     sd = want * math.sqrt(2.0 / n * float(np.mean(g2 ** 2)) / neb ** 2)
-    if var_in > 0 and abs(st["noise_var"] - want) > 6 * sd + 1e-3 * want:
+    if var_in > 0 and _exceeds(abs(st["noise_var"] - want), 6 * sd + 1e-3 * want):
         v.append(("C09:variance-neb", f"measured noise variance {st['noise_var']:.6e} V^2, documented sigma^2 x NEB = {want:.6e} (6 sigma = {6 * sd:.2e})"))
     dark = ref["Rl"] * case["i_dark"]
     msd = math.sqrt(want / n * float(np.mean(g2 ** 2)) / neb ** 2 * 4 + 1e-300)
-    if abs(st["noise_mean"] - dark) > 6 * math.sqrt(max(want, 0) / n / max(neb, 1e-12)) + 1e-9 * abs(dark):
+    if _exceeds(abs(st["noise_mean"] - dark), 6 * math.sqrt(max(want, 0) / n / max(neb, 1e-12)) + 1e-9 * abs(dark)):
         v.append(("C09:noise-mean", f"mean of the output noise {st['noise_mean']:.6e} V, dark-current offset {dark:.6e} V"))
     level = ref["r"] * case["amp"] ** 2 * ref["Rl"]
-    if max(abs(st["sig_min"] - level), abs(st["sig_max"] - level)) > 1e-9 * level:
+    if _exceeds(abs(st["sig_min"] - level), 1e-9 * level) or _exceeds(abs(st["sig_max"] - level), 1e-9 * level):
         v.append(("C09:cw-level", f"CW soak: signal in [{st['sig_min']}, {st['sig_max']}], r*P*R_load = {level}"))
     return v
 
